@@ -422,34 +422,18 @@ func (d infoDesc) build() (*gtab.Info, error) {
 	return info, nil
 }
 
-// expectRefusal computes, from the sizes alone, whether some 16-bit offset
-// or count of the table cannot hold its value.
+// expectRefusal: some 16-bit offset or count of the table cannot hold its
+// value - one of the lists refuses on its own, or the (emitted) sizes of the
+// script and feature lists push the feature or lookup list beyond 65535.
 func (d infoDesc) expectRefusal(info *gtab.Info) bool {
-	// feature list
-	fl := 2 + 6*len(d.features)
-	last := 0
-	for _, f := range info.FeatureList {
-		last = fl
-		if len(f.Lookups) > 0xFFFF {
-			return true
-		}
-		fl += 4 + 2*len(f.Lookups)
-	}
-	if last > 0xFFFF {
+	var sl, fl []byte
+	if pp, _ := guard(func() { sl = gtab.VerifC08ScriptListEncode(info.ScriptList) }); pp {
 		return true
 	}
-	// script list (one script table per script; conservative: total size)
-	sl := 2
-	for _, s := range d.scripts {
-		if len(s.optional) > 0xFFFF {
-			return true
-		}
-		sl += 6 + 4 + 6 + 6 + 2*len(s.optional)
-	}
-	if sl > 0xFFFF {
+	if pp, _ := guard(func() { fl = gtab.VerifC08FeatureListEncode(info.FeatureList) }); pp {
 		return true
 	}
-	return 10+sl+fl > 0xFFFF+200 // header offsets (200: slack for shared script tables)
+	return 10+len(sl) > 0xFFFF || 10+len(sl)+len(fl) > 0xFFFF
 }
 
 func infoCase(d infoDesc) (impl, fail string) {
@@ -526,6 +510,9 @@ func infoCase(d infoDesc) (impl, fail string) {
 				return "ok", fmt.Sprintf("lookup %d subtable %d changes in a round trip", i, j)
 			}
 		}
+	}
+	if len(enc) > 0xFFFF {
+		return "ok>64KiB", ""
 	}
 	return "ok", ""
 }
@@ -747,6 +734,10 @@ func genInfos(run *vlib.Run, r *vlib.Rand, tier string) {
 	add := func(d infoDesc, lb ...string) {
 		line := d.line()
 		impl, fail := infoCase(d)
+		if impl == "ok>64KiB" {
+			lb = append(lb, "info:table>64KiB(extension path with real subtables)")
+			impl = "ok"
+		}
 		idx := run.Add(line, impl, len(d.lookups) > 0, append([]string{"info(oracle only)", "info:" + impl}, lb...)...)
 		if fail != "" {
 			run.Fail(idx, line, fail, "c08-info")
